@@ -247,11 +247,23 @@ def _select_rule(chk, prog):
     # is not looked at must not be followed by janet_await.
     ops = [x for x in fn.nodes if x.k == "call" and (x.callee or "").endswith("_with_lock")]
 
+    conds = [c.kids[0] for c in fn.nodes if c.k in ("if", "cond", "while") and c.kids and c.kids[0] is not None]
+
     def in_condition(x):
         p_ = x.parent
         while p_ is not None and p_.k in ("un", "cast", "bin"):
             x, p_ = p_, p_.parent
-        return p_ is not None and p_.k in ("if", "cond", "while", "for", "do") and p_.kids[0] is x
+        if p_ is not None and p_.k in ("if", "cond", "while", "for", "do") and p_.kids[0] is x:
+            return True
+        # `int status = op(...); if (status) ...`: the result is kept in a local that a later condition tests
+        var = None
+        if p_ is not None and p_.k == "vardecl":
+            var = p_.name
+        elif p_ is not None and p_.k == "asg" and p_.op == "=" and is_ref(p_.kids[0]) and p_.kids[1] is x:
+            var = p_.kids[0].name
+        if var:
+            return any(is_ref(y, var) for c in conds if (c.ln, c.d.get("col", 0)) > (x.ln, x.d.get("col", 0)) for y in c.walk())
+        return False
 
     def transfer(st, x):
         if x.k == "call" and (x.callee or "").endswith("_with_lock"):
@@ -486,3 +498,117 @@ def run(chk):
     _wakepass_rule(chk, prog)
     _ringorder_rule(chk, prog)
     _coercefirst_rule(chk, prog)
+    _ringwalk_rule(chk, prog)
+    _runq_rule(chk, prog)
+
+
+def _ringwalk_rule(chk, prog):
+    """A JanetQueue is a ring: its items are [head, tail) when head <= tail and [head, capacity) + [0, tail) once it
+    has wrapped.  `tail - head` and a walk `for (i = head; i < tail; ...)` describe the items only in the first case,
+    so both are legitimate only where the order of head and tail has been established on the path."""
+    rule = "C06-RINGWALK"
+    chk.rule(rule, "`tail - head` and walks from head up to tail of a ring queue occur only where head <= tail is known (the wrapped case is handled apart)")
+    n = 0
+    for fn in prog.tus["ev.c"].funcs.values():
+        sites = []
+        for x in fn.nodes:
+            if x.k == "bin" and x.op == "-":
+                a, b = strip_casts(x.kids[0]), strip_casts(x.kids[1])
+                if a.k == "mem" and b.k == "mem" and {a.field, b.field} == {"head", "tail"} and a.rec == "JanetQueue" \
+                        and a.kids[0].text() == b.kids[0].text():
+                    sites.append((x, a.kids[0].text(), "`%s`" % x.text()))
+            if x.k == "for" and x.kids[0] is not None and x.kids[1] is not None:
+                inits = [y for y in x.kids[0].walk() if (y.k == "asg" and y.op == "=") or (y.k == "vardecl" and y.kids)]
+                cond = strip_casts(x.kids[1])
+                if inits and cond.k == "bin" and cond.op in ("<", "!="):
+                    start = strip_casts(inits[0].kids[1] if inits[0].k == "asg" else inits[0].kids[0])
+                    end = strip_casts(cond.kids[1])
+                    if start.k == "mem" and start.field == "head" and start.rec == "JanetQueue" and end.k == "mem" and end.field == "tail" \
+                            and start.kids[0].text() == end.kids[0].text():
+                        sites.append((x.kids[1], start.kids[0].text(), "the walk from %s to %s" % (start.text(), end.text())))
+        if not sites:
+            continue
+        chk.analysed(fn)
+        IN, T = flow.condition_facts(fn)
+        seen = set()
+        for x, S in flow.states_at(fn, IN, T):
+            for (sx, q, what) in sites:
+                if x is not sx or sx.id in seen:
+                    continue
+                seen.add(sx.id)
+                n += 1
+                chk.instance(rule)
+                ok = bool(S)
+                for ps in S:
+                    good = False
+                    for (op, l, r, toks, ln, rn) in ps:
+                        if ln is None or rn is None or op not in ("<=", "<", ">", ">="):
+                            continue
+                        a, b = strip_casts(ln), strip_casts(rn)
+                        if a.k == "mem" and b.k == "mem" and {a.field, b.field} == {"head", "tail"} and a.kids[0].text() == q == b.kids[0].text():
+                            lo, hi = (a, b) if op in ("<=", "<") else (b, a)
+                            if lo.field == "head":       # head <= tail (or head < tail)
+                                good = True
+                    if not good:
+                        ok = False
+                if ok:
+                    chk.ok(rule, "%s: %s only where head <= tail" % (fn.name, what))
+                else:
+                    chk.violation(rule, "ev.c", fn.name, "%s:%s" % (q.replace(" ", ""), "diff" if sx.k == "bin" and sx.op == "-" else "walk"), sx.loc,
+                                  "%s in %s is reached without head <= tail being established: once the ring has wrapped (tail < head) "
+                                  "the difference is negative / the walk is empty and the queued items are skipped" % (what, fn.name))
+        for (sx, q, what) in sites:
+            if sx.id not in seen:
+                n += 1
+                chk.instance(rule)
+                chk.ok(rule, "%s: %s (unreachable site)" % (fn.name, what))
+    chk.floor(rule, 5, n)
+
+
+def _runq_rule(chk, prog):
+    """janet_loop1 runs the scheduled tasks and then blocks in the poll.  A fiber that is already in the run queue
+    has its wake-up behind it: nothing will make the poll return for it.  So the poll may be entered only when the
+    run-queue loop was left because the queue was empty (or because an interrupt is pending, which the caller handles)."""
+    rule = "C06-RUNQ"
+    chk.rule(rule, "janet_loop1 enters the blocking poll only after the run queue was found empty or an interrupt is pending")
+    fn = prog.need_func("janet_loop1", "ev.c")
+    chk.analysed(fn)
+    polls = [x for x in fn.nodes if x.k == "call" and x.callee == "janet_loop1_impl"]
+    if not polls:
+        raise AnalysisBroken("janet_loop1: call of janet_loop1_impl not found")
+
+    def is_spawn(e, f):
+        e = strip_casts(e)
+        return e.k == "mem" and e.field == f and e.kids and strip_casts(e.kids[0]).k == "mem" and strip_casts(e.kids[0]).field == "spawn"
+
+    def transfer(st, x):
+        # scheduling anything after the loop makes the queue non-empty again
+        if x.k == "call" and x.callee in ("janet_schedule", "janet_schedule_signal", "janet_schedule_soon", "janet_cancel", "janet_q_push"):
+            return st - frozenset(["empty"])
+        return st
+
+    def edge(st, blk, succ, cond, truth):
+        c = flow.compare_of(cond, truth)
+        if c is None:
+            return st
+        l, op, r = c
+        if r is not None and ((is_spawn(l, "head") and is_spawn(r, "tail")) or (is_spawn(l, "tail") and is_spawn(r, "head"))):
+            if op == "==":
+                return st | frozenset(["empty"])
+            return st - frozenset(["empty"])
+        ls = strip_casts(l)
+        if (r is None or r.v == 0) and op == "!=" and ls.k == "mem" and ls.field == "auto_suspend":
+            return st | frozenset(["interrupt"])
+        return st
+    IN, OUT, T = flow.forward_paths(fn, frozenset(), transfer, edge)
+    for x, S in flow.states_at(fn, IN, T):
+        if x not in polls:
+            continue
+        chk.instance(rule)
+        if S and all(("empty" in ps) or ("interrupt" in ps) for ps in S):
+            chk.ok(rule, "janet_loop1: poll entered with the run queue empty or an interrupt pending")
+        else:
+            chk.violation(rule, "ev.c", "janet_loop1", "poll-with-runnable", x.loc,
+                          "`%s` can be reached on a path that left the run-queue loop while tasks were still queued (neither "
+                          "spawn.head == spawn.tail nor a pending interrupt was established): the poll then blocks although a fiber is "
+                          "runnable, and with no timer or stream event due it blocks for ever" % x.text()[:40])
